@@ -48,6 +48,10 @@ def gen_world(rng):
         if any(G.has_kind(ft, "ref") or G.has_kind(ft, "union") for _, ft in fields) and 1 <= len(fields):
             break
     N = {"k": "struct", "name": "N" + hashlib.sha1(json.dumps(fields, sort_keys=True).encode()).hexdigest()[:8], "fields": fields}
+    if rng.random() < 0.4:
+        N["field_decl"] = True; N["name"] = "F" + N["name"][1:]       # fields declared through xo.Field(...)
+    if rng.random() < 0.3:
+        inner["field_decl"] = True; inner["name"] = "J" + inner["name"][1:]
     D = {"k": "struct", "name": "D" + N["name"][1:], "fields": [["d", {"k": "ref", "target": N}], ["k", {"k": "scalar", "name": "Int64"}]]}
     if rng.random() < 0.35:      # N-D, not C-ordered
         NA = {"k": "array", "item": N, "shape": [2, rng.choice([2, None])], "order": [1, 0]}
@@ -463,6 +467,11 @@ def run(ctx):
         for sig, what, rep in extra:
             found = True
             report(ctx, sig, what, rep)
+        extra, pc2 = U.c09_string_and_large_copies(ctx)
+        partcov.update(pc2)
+        for sig, what, rep in extra:
+            found = True
+            report(ctx, sig, what, rep)
     for sig, (i, what, k) in sorted(bysig.items()):
         found = True
         c = dict(cases[i]); c["ops"] = [dict(o) for o in c["ops"][:k + 1]] if k >= 0 else c["ops"]
@@ -652,7 +661,7 @@ def replay(ctx, path):
     r = json.load(open(path))
     if r.get("kind") != "concrete":
         print("nothing to execute:", r.get("what")); return 1
-    if r.get("tie") == "K-PARTCOPY":
+    if r.get("tie") in ("K-PARTCOPY", "K-COPY-PROBE"):
         return U.part_copy_replay(ctx, r)
     c = r["case"]
     res = run_impl(ctx, "refs", {"cases": [c]})["results"][0]
